@@ -92,14 +92,37 @@ class D(Driver):
         """-> (next current object, result, in-place identity ok?)"""
         name, mode = step
         if mode == "query":
-            self.queries[name](svg)
+            ans = self.queries[name](svg)
+            self._answers.append((name, self._norm_answer(name, ans)))
             return svg, None, True
         r = self.ops[name](svg, mode == "inplace")
         if mode == "inplace":
             return svg, r, (r is svg)
         return r, r, True
 
+    _answers = []
+
+    @staticmethod
+    def _norm_answer(name, ans):
+        """Answers of read-only queries that do not merely repeat the serialisation: what the object says
+        about itself must be what its serialisation says."""
+        try:
+            if name == "checkpicosvg":
+                return tuple(ans)
+            if name in ("view_box", "bounding_box"):
+                return None if ans is None else tuple(round(float(v), 6) for v in ans)
+            if name == "tolerance":
+                return round(float(ans), 9)
+            if name == "shapes":
+                return len(ans)
+            # (xpath is a raw query on the element tree and does not see pending shape edits - observation O5,
+            #  not claimed: the statement names shapes, bounding_box and view_box)
+        except Exception:
+            return "unnormalisable"
+        return None
+
     def run_real(self, doc, steps, want_receiver_of=None):
+        self._answers = []
         cur = self.SVG.fromstring(doc)
         ident_fail = None
         receiver = None
@@ -124,6 +147,7 @@ class D(Driver):
         return cur.tostring(), ident_fail
 
     def run_shadow(self, doc, steps):
+        self._answers = []
         text = doc
         for i, st in enumerate(steps):
             try:
@@ -152,10 +176,12 @@ class D(Driver):
         except StepFailed as f:
             real = f
             ident = None
+        real_answers = list(self._answers)
         try:
             shadow = self.run_shadow(doc, steps)
         except StepFailed as f:
             shadow = f
+        shadow_answers = list(self._answers)
         if ident is not None:
             i, st, tn = ident
             res["viol"].append(dict(rule="inplace_returns_receiver", sig=f"inplace_returns_receiver:{st[0]}",
@@ -196,6 +222,14 @@ class D(Driver):
             res["viol"].append(dict(rule="state_diverges", sig="state_diverges:" + self._sig(psteps, preal, pshadow) + (f":{mech}" if mech else ""), mech=mech,
                                     msg=f"[doc {di}] {phist}" + (f"   (first diverging prefix of: {hist})" if psteps != steps else "") +
                                         f":\n LIVE:   {preal[:900]}\n SHADOW: {pshadow[:900]}", replay=rp))
+            return
+        # the answers of the read-only queries along the way (the documents agree, so must they)
+        if real_answers != shadow_answers:
+            k = next((i for i, (a, b) in enumerate(zip(real_answers, shadow_answers)) if a != b), min(len(real_answers), len(shadow_answers)))
+            ra = real_answers[k] if k < len(real_answers) else None
+            sa = shadow_answers[k] if k < len(shadow_answers) else None
+            res["viol"].append(dict(rule="query_answer_diverges", sig=f"query_answer_diverges:{(ra or sa or ('?',))[0]}",
+                                    msg=f"[doc {di}] {hist}: query #{k} answers {ra!r} on the live object but {sa!r} on the re-parsed document", replay=rp))
             return
         # clause 2: copy-mode steps leave the receiver unchanged (fresh executions, no mid-history observation)
         for i, st in enumerate(steps):
